@@ -16,7 +16,12 @@ EXTENDS Naturals, Sequences, FiniteSets, TLC, Json
 
 CONSTANTS Payload,      \* bytes that may occur inside a message (no CR)
           MaxMsgs, MaxLen,
-          EofRaises     \* TRUE: repaired reader; FALSE: pinned reader
+          EofRaises,    \* TRUE: repaired reader; FALSE: pinned reader
+          ReadImpl      \* "byte": recv(1) and a two-state scanner (the code): what arrives
+                        \* together does not matter.  "block": recv(4096), every block split at
+                        \* CR LF on its own and the kept tail glued in front of its first piece
+                        \* afterwards (regression configuration, seeded changes C19-m1, C09-r8m2,
+                        \* C10-r8m1): a block that ends between CR and LF glues two messages
 
 CR == 13
 LF == 10
@@ -72,8 +77,29 @@ Init ==
   /\ buf = <<>> /\ afterCR = FALSE /\ got = <<>> /\ status = "reading"
   /\ spin = FALSE
 
+\* the pieces of a block between its CR LF pairs (the last piece is what follows
+\* the last pair - possibly empty)
+RECURSIVE SplitCRLF(_)
+SplitCRLF(b) ==
+  LET P == {k \in 1..(Len(b) - 1) : b[k] = CR /\ b[k + 1] = LF} IN
+  IF P = {} THEN <<b>>
+  ELSE LET k == CHOOSE x \in P : \A y \in P : x <= y
+       IN <<SubSeq(b, 1, k - 1)>> \o SplitCRLF(SubSeq(b, k + 2, Len(b)))
+
+\* (regression only) recv(4096) returns everything that arrived together
+RecvBlock ==
+  /\ ReadImpl = "block" /\ status = "reading" /\ chunks # <<>>
+  /\ LET c == Head(chunks)
+         ps == SplitCRLF(c)
+     IN /\ chunks' = Tail(chunks)
+        /\ IF Len(ps) = 1 THEN buf' = buf \o c /\ got' = got
+           ELSE /\ got' = got \o <<buf \o ps[1]>> \o SubSeq(ps, 2, Len(ps) - 1)
+                /\ buf' = ps[Len(ps)]
+  /\ UNCHANGED <<msgs, scenario, closed, afterCR, status, spin>>
+
 \* recv(1) returns the next byte in transit
 RecvByte ==
+  /\ ReadImpl = "byte"
   /\ status = "reading" /\ chunks # <<>>
   /\ LET c == Head(chunks)[1]
          rest == IF Len(Head(chunks)) = 1 THEN Tail(chunks)
@@ -103,7 +129,7 @@ RecvBlocks ==
   /\ status' = "blocked"
   /\ UNCHANGED <<msgs, scenario, closed, chunks, buf, afterCR, got, spin>>
 
-Next == RecvByte \/ RecvEof \/ RecvBlocks
+Next == RecvByte \/ RecvBlock \/ RecvEof \/ RecvBlocks
 Spec == Init /\ [][Next]_vars /\ WF_vars(Next)
 
 (* ------------------------------ properties ----------------------------- *)
